@@ -1,0 +1,16 @@
+//go:build verif
+
+// Package verifhook lets the verification harness observe accesses to state that must not be shared between
+// goroutines (build tag verif only; without the tag Touch is an empty function).
+package verifhook
+
+// Access, when set by the harness, is called with the name of the location, the object that owns it
+// (nil for package-level state) and whether the access is a write.
+var Access func(loc string, obj interface{}, write bool)
+
+// Touch reports an access to the installed observer.
+func Touch(loc string, obj interface{}, write bool) {
+	if f := Access; f != nil {
+		f(loc, obj, write)
+	}
+}
